@@ -224,13 +224,24 @@ def run(ck, m):
     got = sorted(", ".join(f"{k.arg}={norm(k.value)}" for k in c.keywords) for c in ups)
     ck.ob("R5", isk, ok_ups, f"seek must record (offset, whence) for INDEFINITE and (frame, START) for definite sources in a single update() each; found {got}", stmt="seek: recorded by single update()")
     g = CFG(isk)
-    is_up = lambda n: n.kind == "stmt" and n.ast is not None and any(isinstance(c, ast.Call) and norm(c.func) == "renderable_data.update" for c in ast.walk(n.ast))  # noqa: E731
+    is_up = lambda n: n.kind == "stmt" and n.ast is not None and any(any(c is u_ for u_ in ups) for c in ast.walk(n.ast))  # noqa: E731  (the update() calls found by role above)
     p = g.search([g.entry], lambda n: n is g.exit_return, avoid=is_up, from_succ=False, edge_ok=lambda s, lab, d: not lab.startswith(("e:", "p:")))
     ck.ob("R5", isk, p is None, f"seek() can return normally without recording the seek ({fmt_path(p) if p else ''}): an accepted seek must take effect at the next render "
           "(and cancel a previously pending one), and an out-of-range one must be rejected", stmt="seek: every accepted seek is recorded")
-    hand = [c for c in body_walk(itf) if isinstance(c, ast.Call) and norm(c.func) == "renderable_data.update"]
+    def _rd_same(t, use_):
+        """the was-seeked test with every alias of the renderable-data namespace (self._renderable_data, render_data[Renderable], locals bound to them) read as RD"""
+        src = norm(trace(itf, t, use=use_, keep=("CURRENT",)))
+        for v_ in sorted(rd_vals, key=len, reverse=True):
+            src = src.replace(v_, "RD")
+        try:
+            return same_bool(None, ast.parse(src, mode="eval").body, "RD.frame_offset or RD.seek_whence != Seek.CURRENT", expand_b=False) \
+                or same_bool(None, ast.parse(src, mode="eval").body, "RD.frame_offset or RD.seek_whence != CURRENT", expand_b=False)
+        except SyntaxError:
+            return False
+    rd_vals = {"self._renderable_data"} | {norm(trace(itf, st_.value, use=st_)) for t_, st_ in stores_in(ast.Module(body=itf.body, type_ignores=[])) if norm(t_) == "self._renderable_data" and getattr(st_, "value", None) is not None}
+    hand = [c for c in body_walk(itf) if isinstance(c, ast.Call) and isinstance(c.func, ast.Attribute) and c.func.attr == "update" and norm(trace(itf, c.func.value, use=c)) in rd_vals]
     ok = len(hand) == 1 and {k.arg: norm(trace(itf, k.value)) for k in hand[0].keywords} == {"frame_offset": "0", "seek_whence": "Seek.CURRENT"} and any(
-        b_ and same_bool(itf, t, "renderable_data.frame_offset or renderable_data.seek_whence != Seek.CURRENT") for t, b_ in guards(hand[0]))
+        b_ and (same_bool(itf, t, "renderable_data.frame_offset or renderable_data.seek_whence != Seek.CURRENT") or _rd_same(t, hand[0])) for t, b_ in guards(hand[0]))
     ck.ob("R5", hand[0] if hand else itf, ok, "after a render, a pending INDEFINITE seek must be reset to (0, CURRENT) under the was-seeked test (handed over exactly once)", stmt="_iterate: pending seek reset")
     # the reset happens after the render and before the yield of that frame
     if hand:
